@@ -86,3 +86,32 @@ def replay_jacobian(rep):
     ok = dev <= 2e-6 * scale * 1e2
     print("REPRODUCED" if not ok else "not reproduced on the current tree")
     return 1 if not ok else 0
+
+
+def c09(seed, tier, broken):
+    from search import groups as G
+
+    w, ev = G.search_group(seed, _n(tier, broken, 40, 1500))
+    found = []
+    if w:
+        w["match"] = "group-law:%s:%s" % (w["cls"], w["law"])
+        found.append(w)
+    return dict(found=found, evaluations=ev)
+
+
+def c11(seed, tier, broken):
+    from search import groups as G
+
+    big = tier == "thorough" or broken
+    w, ev, worst = G.search_invariants(seed, 40 if big else 4, 10000 if big else 2500)
+    found = []
+    if w:
+        w["match"] = "invariant:%s" % w["kind"]
+        found.append(w)
+    return dict(found=found, evaluations=ev, worst_unit_norm_deviation=worst)
+
+
+def replay_generic(rep):
+    print(json.dumps(rep, indent=1)[:4000])
+    print("re-run the property's search on the current tree: ./check <id> --tier thorough")
+    return 1
